@@ -5,7 +5,8 @@ def R(defs):
             "native_sources": "ALL", "native_exclude": ["fe_interface.c"]}
 def C(name, chunks, tiers=("quick", "thorough")):
     d = ["FS=5", "SH=2", "NS=11", "NCHUNK=3", "CHUNKS=" + chunks]
-    return dict(name=name, harness=H, entry="r_fe_chunking", defines=d, allow_no_body=["*"], unwind=14, replay=R(d), tiers=tiers,
+    # MiniSat first for these groups: with CaDiCaL some obligations come back with status ERROR under the memory limit
+    return dict(name=name, harness=H, entry="r_fe_chunking", defines=d, allow_no_body=["*"], unwind=14, replay=R(d), tiers=tiers, backends=[[], ["--sat-solver", "cadical"]],
                 unwindset="ssw_memcpy.0:24,ssw_memmove.0:24,ssw_memmove.1:24", timeout={"quick": 600, "thorough": 1800},
                 bounded="geometry 5 / 2, 11 concrete distinct samples, chunk sizes (%s), symbolic output limit 1..3 per call, int16 and float32" % chunks)
 HC = "harness/C06_fe_contracts.c"
